@@ -481,7 +481,11 @@ func tampers() []tamper {
 			case 0:
 				m.FromPeerId = "not base58 0OIl"
 			case 1:
-				m.FromPeerId = m.FromPeerId[:len(m.FromPeerId)-2]
+				if len(m.FromPeerId) > 2 {
+					m.FromPeerId = m.FromPeerId[:len(m.FromPeerId)-2]
+				} else {
+					m.FromPeerId = "z"
+				}
 			case 2:
 				m.FromPeerId = b58.Encode(w.c.RandBytes(1 + w.c.Rng.Intn(40)))
 			case 3:
